@@ -547,6 +547,24 @@ impl<'tcx> Dumper<'tcx> {
             ConstValue::ZeroSized => {
                 o = o.put_b("zst", true);
             }
+            ConstValue::Slice { alloc_id, meta }
+                if matches!(ty.kind(), ty::Ref(_, t, _) if matches!(t.kind(), ty::Slice(e) if *e != tcx.types.u8)) =>
+            {
+                // `&[T]` of structured elements (e.g. `const TABLE: &[(u16, char)]`)
+                let mut done = false;
+                if let ty::Ref(_, t, _) = ty.kind() {
+                    if let ty::Slice(elem) = t.kind() {
+                        let arr_ty = Ty::new_array(tcx, *elem, meta);
+                        if let Some(v) = self.read_value(alloc_id, 0, arr_ty, 0) {
+                            o = o.put("value", v);
+                            done = true;
+                        }
+                    }
+                }
+                if !done {
+                    o = o.put_s("opaque", "slice");
+                }
+            }
             ConstValue::Slice { .. } => {
                 if let Some(bytes) = v.try_get_slice_bytes_for_diagnostics(tcx) {
                     match std::str::from_utf8(bytes) {
@@ -573,6 +591,13 @@ impl<'tcx> Dumper<'tcx> {
                             o = o.put("array", v);
                             done = true;
                         }
+                    }
+                }
+                if !done {
+                    // arrays / tuples of scalars (e.g. `const TABLE: [(char, char); 10]`)
+                    if let Some(v) = self.read_value(alloc_id, offset.bytes() as usize, ty, 0) {
+                        o = o.put("value", v);
+                        done = true;
                     }
                 }
                 if !done {
@@ -611,6 +636,97 @@ impl<'tcx> Dumper<'tcx> {
             }
         }
         Some(J::Arr(out))
+    }
+
+    /// Structured read of a constant made of arrays, tuples and scalars only (layout-driven).
+    fn read_value(&self, id: mir::interpret::AllocId, off: usize, ty: Ty<'tcx>, depth: usize) -> Option<J> {
+        let tcx = self.tcx;
+        if depth > 4 {
+            return None;
+        }
+        let layout = tcx.layout_of(TypingEnv::fully_monomorphized().as_query_input(ty)).ok()?;
+        match ty.kind() {
+            ty::Char | ty::Bool | ty::Uint(_) | ty::Int(_) => {
+                let size = layout.size.bytes() as usize;
+                let bytes = self.read_bytes(id, off, size)?;
+                let mut v: u128 = 0;
+                for b in 0..size {
+                    v |= (bytes[b] as u128) << (8 * b);
+                }
+                match ty.kind() {
+                    ty::Char => {
+                        let ch = char::from_u32(v as u32)?;
+                        Some(J::obj().put_i("cp", v as i128).put_s("char", ch.to_string()).done())
+                    }
+                    ty::Bool => Some(J::Bool(v != 0)),
+                    ty::Int(_) => Some(J::Int(layout.size.sign_extend(v) as i128)),
+                    _ => Some(J::Int(v as i128)),
+                }
+            }
+            ty::Array(elem, len) => {
+                let n = len.try_to_target_usize(tcx)? as usize;
+                if n > 4096 {
+                    return None;
+                }
+                let el = tcx.layout_of(TypingEnv::fully_monomorphized().as_query_input(*elem)).ok()?;
+                let stride = el.size.bytes() as usize;
+                let mut out = Vec::new();
+                for i in 0..n {
+                    out.push(self.read_value(id, off + i * stride, *elem, depth + 1)?);
+                }
+                Some(J::obj().put("array", J::Arr(out)).done())
+            }
+            ty::Tuple(tys) => {
+                let mut out = Vec::new();
+                for (i, t) in tys.iter().enumerate() {
+                    let fo = layout.fields.offset(i).bytes() as usize;
+                    out.push(self.read_value(id, off + fo, t, depth + 1)?);
+                }
+                Some(J::obj().put("tuple", J::Arr(out)).done())
+            }
+            ty::Ref(_, inner, _) => {
+                // follow the pointer through the allocation's provenance map
+                let (pid, poff) = self.read_ptr(id, off)?;
+                match inner.kind() {
+                    ty::Slice(elem) => {
+                        let lb = self.read_bytes(id, off + 8, 8)?;
+                        let mut n: usize = 0;
+                        for b in 0..8 {
+                            n |= (lb[b] as usize) << (8 * b);
+                        }
+                        if n > 4096 {
+                            return None;
+                        }
+                        let el = tcx.layout_of(TypingEnv::fully_monomorphized().as_query_input(*elem)).ok()?;
+                        let stride = el.size.bytes() as usize;
+                        let mut out = Vec::new();
+                        for i in 0..n {
+                            out.push(self.read_value(pid, poff + i * stride, *elem, depth + 1)?);
+                        }
+                        Some(J::obj().put("array", J::Arr(out)).done())
+                    }
+                    ty::Array(..) | ty::Tuple(..) => self.read_value(pid, poff, *inner, depth + 1),
+                    _ => None,
+                }
+            }
+            _ => None,
+        }
+    }
+
+    fn read_ptr(&self, id: mir::interpret::AllocId, off: usize) -> Option<(mir::interpret::AllocId, usize)> {
+        match self.tcx.try_get_global_alloc(id)? {
+            mir::interpret::GlobalAlloc::Memory(a) => {
+                let a = a.inner();
+                let prov = a.provenance().get_ptr(rustc_abi::Size::from_bytes(off as u64))?;
+                let bytes = self.read_bytes(id, off, 8)?;
+                let mut v: usize = 0;
+                for b in 0..8 {
+                    v |= (bytes[b] as usize) << (8 * b);
+                }
+                Some((prov.alloc_id(), v))
+            }
+            _ => None,
+        }
     }
 
     fn read_bytes(&self, id: mir::interpret::AllocId, off: usize, len: usize) -> Option<Vec<u8>> {
